@@ -22,7 +22,7 @@ impl Property for C09 {
         "C09"
     }
     fn rule(&self) -> &'static str {
-        "case = valid instance (previously removed constraints, constant/absent constraint functions, non-contiguous ids incl. large ones, any representation, hints, dependencies) x {penalty_method, uniform_penalty_method} x weights x (instantiation with_parameters); \
+        "case = valid instance (previously removed constraints, constant/absent constraint functions, non-contiguous ids up to u64::MAX, any representation, hints, dependencies, removal reasons as the SDK writes them, two constraints sharing one 12-term function, 15..33 active constraints) x {penalty_method, uniform_penalty_method} x weights x (instantiation with_parameters); \
          oracle = f + sum_c w_c g_c^2 (resp. f + w sum g_c^2) as an exact polynomial in the joint variables (x, w) + bookkeeping model; non-trivial = >=2 active constraints of degree>=1 or >=1 pre-existing removed constraint; distinct = sha256(instance, method, weights)"
     }
     fn required_labels(&self) -> Vec<String> {
